@@ -207,3 +207,34 @@ Example norm_examples :
   norm_wowp "World of Warplanes 2. 1. 20" = ["2"; "1"; "20"].
 Proof. repeat split; reflexivity. Qed.
 Print Assumptions norm_wows_format.
+
+(* ---- C18: the path handed to Definitions contains no '.', hence no '..' component: it cannot climb out of versions/ ---- *)
+Lemma replace_dot_fuel : forall s fuel, (String.length s < fuel)%nat -> has_char "." (replace_fuel fuel "." "_" s) = false.
+Proof.
+  induction s as [|c r IH]; intros fuel H; (destruct fuel as [|f]; [cbn in H; lia|]); [reflexivity|].
+  cbn [replace_fuel prefixb]. rewrite andb_true_r. rewrite (Ascii.eqb_sym "." c).
+  destruct (Ascii.eqb c ".") eqn:E.
+  - cbn [String.length drop append has_char]. change (Ascii.eqb "_" ".") with false. cbn [orb]. apply IH. cbn in H. lia.
+  - cbn [has_char]. rewrite E. cbn [orb]. apply IH. cbn in H. lia.
+Qed.
+Theorem defs_path_no_dot v : has_char "." (defs_path v) = false.
+Proof. unfold defs_path, replace_all. apply replace_dot_fuel. lia. Qed.
+(* in particular no component of the path is ".." *)
+Corollary defs_path_no_dotdot v : ~ In ".." (split_on "/" (defs_path v)).
+Proof.
+  intros H. pose proof (defs_path_no_dot v) as Hn. revert H. unfold split_on.
+  assert (G : forall s cur, has_char "." s = false -> has_char "." cur = false -> forall x, In x (split_acc "/" s cur) -> has_char "." x = false).
+  { induction s as [|c r IH]; intros cur Hs Hc x Hx; cbn [split_acc] in Hx.
+    - destruct Hx as [<-|[]]; exact Hc.
+    - cbn [has_char] in Hs. apply orb_false_iff in Hs as [Hc1 Hr]. destruct (Ascii.eqb c "/").
+      + destruct Hx as [<-|Hx]; [exact Hc|]. exact (IH EmptyString Hr eq_refl x Hx).
+      + eapply IH; [exact Hr| |exact Hx]. clear -Hc Hc1. induction cur as [|a cur IHc]; cbn [append has_char] in *.
+        * now rewrite Hc1.
+        * apply orb_false_iff in Hc as [H1 H2]. rewrite H1. cbn [orb]. now apply IHc. }
+  intros H. specialize (G (defs_path v) "" Hn eq_refl ".." H). discriminate G.
+Qed.
+(* the crafted strings tried by the check, evaluated: the path stays below versions/ *)
+Example defs_path_examples :
+  defs_path "0_9_4_2442770/../../../../tmp/evil" = "0_9_4_2442770/__/__/__/__/tmp/evil" /\ defs_path "0_9_4_x/../.." = "0_9_4_x/__/__".
+Proof. split; reflexivity. Qed.
+Print Assumptions defs_path_no_dotdot.
